@@ -29,7 +29,15 @@ const (
 	// Seek, the way byte ranges of a file are served). It contributes min(N, FileLen-Off) bytes,
 	// the bytes Off.. of the pattern file - possibly none.
 	OpRFX = "RFX"
+	// Overrun attempts: a Write / WriteString / ReadFrom(bytes.Reader) of N bytes where the declared
+	// Content-Length leaves room for fewer. They contribute nothing: the call must be refused.
+	OpOW  = "OW"
+	OpOWS = "OWS"
+	OpORF = "ORF"
 )
+
+// IsOverrun reports whether the operation is an overrun attempt.
+func (o Op) IsOverrun() bool { return o.K == OpOW || o.K == OpOWS || o.K == OpORF }
 
 // Connection kinds (what the response writer finds behind Parser.Conn). The kind only matters
 // to ReadFrom with a file.
